@@ -107,11 +107,15 @@ PowOK(h, s) == IPow(QNorm(h), Abs(s)) <= 2000          \* keeps every intermedia
 
 CSmallSigned == { <<m * m - 1, sg * 2 * m, m * m + 1>> : m \in {8, 20, 50}, sg \in {1, -1} }     \* theta = +-2 atan(1/m)
 
+NearTurnK == IF Thorough THEN {2, 3, 4, 5, 6, 7, 8, 9, 10, 12} ELSE {3, 5, 7, 8, 9, 12}
+ASSUME \A h \in HSmall : QMat(QNeg(h)) = QMat(h) /\ QNorm(QNeg(h)) = QNorm(h)        \* FullTurn: theta and theta - 2 pi give the same rotation
+
 (* ------------------------------ test vectors ---------------------------------------- *)
 VARIABLES dummy
 InitE == /\ dummy = 0
          /\ \/ \E h \in HAll : tv = [op |-> "seedh", h |-> h]
             \/ \E cs \in CSel \cup CSmallSigned : tv = [op |-> "seedc", cs |-> cs]
+            \/ tv = [op |-> "seedt"]
 NextE == UNCHANGED dummy /\
   \/ /\ tv.op = "seedh"
      /\ LET h == tv.h cell == HCell(tv.h) IN
@@ -171,6 +175,14 @@ NextE == UNCHANGED dummy /\
            /\ \E rep \in RepsSE(h), p \in Rhos, p2 \in {<<1,1,1>>} : RepOK(rep, h) /\
               tv' = [op |-> "log_se23", rep |-> rep, h |-> h, hp |-> Principal(h), p |-> p, p2 |-> p2, cell |-> cell,
                      u |-> GenU(Principal(h), p), u2 |-> GenU(Principal(h), p2)]
+  (* "just under 2 pi": x = (2 pi - 10^-k) u.  The rotation is the one of -10^-k u (FullTurn below: q and -q are the same
+     rotation, the half-angle quaternion of theta - 2 pi is minus the one of theta); 10^-k is far below what the 32-bit
+     lattice resolves, so the expectation of these states is the matrix exponential itself, evaluated by the harness at
+     50 digits (the same oracle the embedding is self-tested against). *)
+  \/ /\ tv.op = "seedt"
+     /\ \E k \in NearTurnK, v \in HAxes, kind \in {"so3", "se3", "se23"} :
+          \E rep \in (IF kind = "so3" THEN Reps3 ELSE Reps2) :
+             tv' = [op |-> "exp_nearturn", kind |-> kind, rep |-> rep, k |-> k, axis |-> v, cell |-> "nearturn"]
   \/ /\ tv.op = "seedc"
      /\ LET cs == tv.cs IN
         \/ tv' = [op |-> "exp_so2", cs |-> cs, exp |-> RM(CMat(cs), cs[3])]
